@@ -18,9 +18,10 @@ THEOREMS = ["TLVerif.Props.C37." + t for t in [
     "buildAck_sound", "buildAck_exact", "buildAck_set_bound", "buildAck_complete",
     "buildNack_sound", "buildNack_exact", "buildNack_bound", "buildNack_complete", "checkInvariants_silent",
     "state_determined_by_set", "order_irrelevant", "duplicate_irrelevant", "prefix_monotone", "haveHoles_exact",
+    "heap_refines", "heap_wellformed",
     "guard_needed_set", "guard_needed_inv", "guard_needed_nack"]]
 SOURCES = ["TLVerif.Acks.Acks", "TLVerif.Acks.AcksLemmas", "TLVerif.Acks.AcksBuildLemmas", "TLVerif.Acks.AcksCanonLemmas",
-           "TLVerif.Acks.Driver"]
+           "TLVerif.Acks.Heap", "TLVerif.Acks.HeapLemmas", "TLVerif.Acks.Driver"]
 HERE = os.path.dirname(os.path.dirname(os.path.abspath(__file__)))
 M32 = 2**32 - 1  # the guard: to < M32
 
@@ -292,8 +293,11 @@ def run(c):
     rng = c.rng
     c.trusted += ["go/hacks harness + in-package overlay driver (copies unexported fields and header fields out)",
                   "factgen `fileconst` extraction of MaxAckSet",
-                  "modelled, not verified: Go pointer-linked list as a Lean List; uint32 arithmetic as Nat modulo 2^32; "
-                  "generated EncHeader setters only set the flag bit and the field"]
+                  "modelled, not verified: Go heap of ackRange nodes as an array of (from, to, next-index) records (pointer = index, "
+                  "new node = push; the executed model keeps prevRange/tmpRange cursors and in-place mutation, and is proved to "
+                  "refine the list-level model: heap_refines); uint32 arithmetic as Nat modulo 2^32; BuildAck/BuildNegativeAck/"
+                  "checkInvariantsCommon traversals (read-only) are modelled on the list view; generated EncHeader setters only set "
+                  "the flag bit and the field"]
     c.assumptions += ["theorems hold under the explicit guard from <= to < 2^32-1 for every recorded range and initial prefix <= 2^32-1 "
                       "(guard_needed_* prove it is tight); histories outside the guard are tied (model mirrors the wrap) but the property is not claimed there",
                       "headers are built on fresh EncHeader/ResendRequest values, as Transport.buildDatagram does"]
